@@ -92,6 +92,10 @@ class UB:
             return v
         # checked arithmetic tuple: (x).0
         if len(pr) == 1 and isinstance(pr[0], dict) and "f" in pr[0] and b.local_ty(l).startswith("("):
+            ds = b.defs(l)
+            if ds and all(d[2] == "assign" and d[3].get("k") == "agg" and d[3].get("ak") == "tuple" and len(d[3].get("ops", [])) > pr[0]["f"] for d in ds):
+                # a user tuple built component by component: each component has its own bound
+                return max(self.operand(b, d[3]["ops"][pr[0]["f"]], d[0]) for d in ds)
             if pr[0]["f"] == 0:
                 return self.local(b, l)
             return 1
@@ -501,6 +505,8 @@ class UB:
             return min(self.operand(b, a[0], bb), self.operand(b, a[1], bb))
         if n in ("std::cmp::max", "core::cmp::max") or n.endswith("Ord::max"):
             return max(self.operand(b, a[0], bb), self.operand(b, a[1], bb))
+        if n.endswith("Ord::clamp") and len(a) == 3:
+            return min(max(self.operand(b, a[0], bb), self.operand(b, a[1], bb)), self.operand(b, a[2], bb))
         if re.search(r"(From::from|Into::into|TryFrom::try_from|TryInto::try_into|Result::unwrap|Result::expect|Option::unwrap|Clone::clone)$", n) and a:
             return min(self.operand(b, a[0], bb), cap) if cap != INF else self.operand(b, a[0], bb)
         if n.endswith("Default::default") and cap != INF:
